@@ -31,7 +31,7 @@ func init() {
 			"direction 2 (documentation -> implementation): streams generated from the documented grammar (blocks in any order, three bin layouts, N=0, negative/zero/large deltas and strides, repeated indexes, repeated zero-count/store/identical mapping blocks, statistics blocks interleaved) are decoded by DecodeDDSketch / DecodeDDSketchWithExactSummaryStatistics / DecodeAndMergeWith into every store kind; content must equal the sum the documentation assigns. " +
 			"Also: the plain decoder accepts exact-summary encodings with identical bins. Non-trivial = stream with >=3 blocks and >=2 distinct layouts or a non-unit stride; distinct = hash of the stream.",
 		Cases:     core.Scale(120000, 3000000),
-		Mandatory: []string{"oracle.independent_parse", "oracle.independent_parse.exact", "oracle.grammar_streams_decoded", "oracle.plain_decoder_on_exact_encoding", "grammar.stride_nonunit", "grammar.stride_negative", "grammar.stride_zero", "grammar.repeated_index", "grammar.empty_block", "grammar.mapping_last", "grammar.mapping_repeated", "grammar.statistics_blocks", "decoder.exact", "decoder.merge_into_nonempty"},
+		Mandatory: []string{"oracle.independent_parse", "oracle.independent_parse.exact", "oracle.grammar_streams_decoded", "oracle.plain_decoder_on_exact_encoding", "grammar.stride_nonunit", "grammar.stride_negative", "grammar.stride_zero", "grammar.repeated_index", "grammar.empty_block", "grammar.mapping_last", "grammar.mapping_repeated", "grammar.statistics_blocks", "grammar.deltas_beyond_int32", "decoder.exact", "decoder.merge_into_nonempty"},
 		Assumptions: []string{
 			"the reference codec in /verif/harness/internal/wire is itself faithful to the format documentation",
 		},
@@ -618,6 +618,40 @@ func runC07Doc2Impl(c *core.Ctx) {
 	withStats := exactDecoder || r.P(0.3)
 	mappingMode := r.Intn(4) // 0 none (supplied by caller), 1 first, 2 last, 3 repeated
 	blocks := genGrammarStream(c, r, m, centre, withStats, mappingMode)
+	wide := r.P(0.06)
+	if wide {
+		// bins at both ends of the int32 index range inside one delta-encoded block: the documented varint64
+		// deltas then exceed 2^31. Only stores without a span limit can take such a stream.
+		typ := byte(wire.TypePositive)
+		if r.Bool() {
+			typ = wire.TypeNegative
+		}
+		b := wire.Block{Flag: wire.Flag(typ, wire.SubBinsDeltasCounts)}
+		unit := r.Bool()
+		if unit {
+			b.Flag = wire.Flag(typ, wire.SubBinsDeltas)
+		}
+		idx := int64(0)
+		for j, n := 0, r.Range(2, 6); j < n; j++ {
+			var target int64
+			if j%2 == 0 {
+				target = int64(math.MinInt32) + 1 + int64(r.Intn(1000))
+			} else {
+				target = int64(math.MaxInt32) - 1 - int64(r.Intn(1000))
+			}
+			b.Deltas = append(b.Deltas, target-idx)
+			idx = target
+			if !unit {
+				b.Counts = append(b.Counts, float64(r.Range(1, 9)))
+			}
+		}
+		pos := r.Intn(len(blocks) + 1)
+		if mappingMode == 1 && pos == 0 {
+			pos = 1
+		}
+		blocks = append(blocks[:pos], append([]wire.Block{b}, blocks[pos:]...)...)
+		c.Count("grammar.deltas_beyond_int32", 1)
+	}
 	stream := wire.Emit(blocks)
 	c.SigB(stream)
 	c.Logf("documentation -> implementation: %d blocks %v, %d bytes, mapping %s (mode %d), exact decoder=%v", len(blocks), blockNames(blocks, 12), len(stream), m.Desc, mappingMode, exactDecoder)
@@ -634,6 +668,9 @@ func runC07Doc2Impl(c *core.Ctx) {
 		target := gen.StoreSpec{Kind: tk}
 		if target.Collapsing() {
 			target.N = gen.RandN(r)
+		}
+		if wide && (tk == gen.SDense || tk == gen.SPaginated) {
+			continue // span-limited stores cannot hold both ends of the index range
 		}
 		var supplied = m.M
 		if mappingMode != 0 && r.Bool() {
